@@ -1,6 +1,7 @@
 package main
 
 import (
+	"encoding/json"
 	"fmt"
 	"os"
 	"os/exec"
@@ -33,12 +34,13 @@ type C18Case struct {
 	DensePre   int      `json:"dense_prefill,omitempty"` // tensor pool pre-filled to this many entries (PoolSize-1 / PoolSize reach the pool-full branches)
 	Big        bool     `json:"big,omitempty"`           // shared and private tensors may have up to 2^17 elements (2^15 in the race build)
 	Micro      bool     `json:"micro,omitempty"`         // contention run: 3-4 clients, a few scalar operations each on tensors of different element sizes
+	ConcFirst  bool     `json:"conc_first,omitempty"`    // the interleaved run comes first (in a process that has done nothing yet), the solo oracle afterwards
 }
 
 type C18Stats struct {
 	Runs, Ops, Yields, Switches, SwitchesInOp uint64
 	SeqSkips, SoloSharedMut, SoloUnterminated uint64
-	TapeFull, BigRuns, MicroRuns              uint64
+	TapeFull, BigRuns, MicroRuns, FreshRuns   uint64
 	Unreproducible                            uint64
 	Strategies                                map[string]uint64
 	Families                                  map[string]uint64
@@ -285,7 +287,7 @@ func concRun(cs *C18Case, sr *RNG, replay bool, st *C18Stats) *concResult {
 		if c18SoloYields > expect {
 			expect = c18SoloYields // measured while the programs ran alone (large tensors: millions of statements)
 		}
-		cs.Strategy = S.SetupRandom(sr, n, expect, cs.Micro)
+		cs.Strategy = S.SetupRandom(sr, n, expect, cs.Micro || cs.ConcFirst)
 	}
 	if !raceEnabled {
 		init0 := sharedHashes(shared, true)
@@ -447,6 +449,21 @@ func execC18(cs *C18Case, tier string, replay bool, st *C18Stats) (*Violation, u
 	setBig(cs.Big)
 	r := RNG{s: cs.Seed ^ 0xc18c18}
 	solo := make([][]Outcome, cs.Clients)
+	var res *concResult
+	if cs.ConcFirst {
+		// a process that has not touched the library yet: whatever it initialises lazily, the clients meet in it
+		for _, p := range cs.Programs {
+			if p == nil {
+				return nil, 0
+			}
+		}
+		c18SoloYields = 0
+		sr := r.Fork(0x5c4ed)
+		res = concRun(cs, &sr, replay && len(cs.Tape) > 0, st)
+		if res.deadlock || S.overBudget {
+			goto judge // nothing more can be run in this process
+		}
+	}
 	S.soloYields = 0
 	for c := 0; c < cs.Clients; c++ {
 		var gen *RNG
@@ -493,9 +510,12 @@ func execC18(cs *C18Case, tier string, replay bool, st *C18Stats) (*Violation, u
 			return nil, 0
 		}
 	}
-	c18SoloYields = S.soloYields
-	sr := r.Fork(0x5c4ed)
-	res := concRun(cs, &sr, replay, st)
+	if res == nil {
+		c18SoloYields = S.soloYields
+		sr := r.Fork(0x5c4ed)
+		res = concRun(cs, &sr, replay, st)
+	}
+judge:
 	if S.tapeFull {
 		// more context switches than the tape holds: the run was cut short and says nothing
 		if st != nil {
@@ -768,6 +788,25 @@ func workC18(res *WorkerResult, start time.Time) {
 			}
 			continue
 		}
+		if v == nil && !cs.Big && freshWorthwhile(cs, rs) {
+			// now and then the same programs once more, in a new process and with the interleaved run first
+			st.FreshRuns++
+			if fv, fcs := freshConcFirst(cs); fv != nil {
+				// confirm: the saved case must fail again in another new process
+				if raceRecurs(fcs) {
+					rf := ReplayFile{Property: "C18", Violation: fv, Seed: *flagSeed, Run: run, Tags: *flagTags, C18: fcs, From: map[string]int{"clients": cs.Clients}}
+					path := saveReplay(&rf)
+					res.Violations = append(res.Violations, rf)
+					res.Replays = append(res.Replays, path)
+					if len(res.Violations) >= *flagMaxViol {
+						break
+					}
+				} else {
+					st.Unreproducible++
+				}
+			}
+			continue
+		}
 		if v == nil {
 			if len(st.Samples) < 2 && cs.Clients == 2 && len(cs.Programs[0])+len(cs.Programs[1]) <= 12 {
 				st.Samples = append(st.Samples, map[string]interface{}{"seed": rs, "strategy": cs.Strategy, "setup": cs.Setup, "programs": cs.Programs, "switches": len(cs.Tape), "first_switches": firstN(cs.Tape, 12)})
@@ -827,7 +866,7 @@ func workC18(res *WorkerResult, start time.Time) {
 	res.Distinct = keysOf(st.Sigs)
 	res.Stats = map[string]interface{}{
 		"runs": st.Runs, "ops": st.Ops, "yields": st.Yields, "switches": st.Switches, "switches_in_op": st.SwitchesInOp,
-		"seq_skips": st.SeqSkips, "solo_shared_mutations": st.SoloSharedMut, "solo_unterminated": st.SoloUnterminated, "tape_overflow_skips": st.TapeFull, "runs_with_large_tensors": st.BigRuns, "contention_runs": st.MicroRuns, "unreproducible_mismatches": st.Unreproducible, "strategies": st.Strategies,
+		"seq_skips": st.SeqSkips, "solo_shared_mutations": st.SoloSharedMut, "solo_unterminated": st.SoloUnterminated, "tape_overflow_skips": st.TapeFull, "runs_with_large_tensors": st.BigRuns, "contention_runs": st.MicroRuns, "fresh_process_runs": st.FreshRuns, "unreproducible_mismatches": st.Unreproducible, "strategies": st.Strategies,
 		"families": st.Families, "op_names": st.OpNames, "pool": st.Pool, "distinct_schedule_signatures": len(st.Sigs),
 		"clients": st.Clients, "races": st.Races, "deadlocks": st.Deadlocks, "finalizers_fired": st.FinalizersFired,
 		"max_yields_in_a_run": st.MaxYields, "samples": st.Samples,
@@ -974,4 +1013,67 @@ func microOp(r *RNG, g *Gen, k int) Op {
 	names := []string{"Add", "Sub", "Mul", "Lt", "Gt", "ElEq"}
 	op := Op{Name: names[r.Intn(len(names))], In: []int{a}, Out: g.newSlot(), F: float64(1 + r.Intn(3)), Form: []string{"vs", "sv"}[r.Intn(2)], Fam: "arith"}
 	return op
+}
+
+// freshConcFirst executes the case in a new process of this binary in which the interleaved run comes first: the
+// library's lazily initialised state (compiled regexps, tables filled on first use, sync.Once-like guards) is then
+// initialised by clients that meet in it. The solo oracle of that process runs afterwards. Returns the case as the
+// child executed it (tape included) if the child found a violation.
+func freshConcFirst(cs *C18Case) (*Violation, *C18Case) {
+	dir, err := os.MkdirTemp("", "tsim-fresh-")
+	if err != nil {
+		return nil, nil
+	}
+	defer os.RemoveAll(dir)
+	cc := *cs
+	cc.ConcFirst = true
+	cc.Tape = nil
+	cc.Strategy = ""
+	in, out := dir+"/case.json", dir+"/found.json"
+	if writeJSON(in, &ReplayFile{Property: "C18", C18: &cc, Tags: *flagTags, Seed: *flagSeed}) != nil {
+		return nil, nil
+	}
+	args := []string{"-replay", in, "-replayout", out, "-racelog", dir + "/log", "-sites", fmt.Sprint(*flagSites), "-tier", *flagTier}
+	if *flagSiteFile != "" {
+		args = append(args, "-sitefile", *flagSiteFile)
+	}
+	cmd := exec.Command(os.Args[0], args...)
+	cmd.Env = append(os.Environ(), "GORACE=log_path="+dir+"/log halt_on_error=0 exitcode=0", "GOMAXPROCS=1")
+	if err := cmd.Run(); err == nil {
+		return nil, nil
+	} else if ee, ok := err.(*exec.ExitError); !ok || ee.ExitCode() != 1 {
+		return nil, nil
+	}
+	b, err := os.ReadFile(out)
+	if err != nil {
+		return nil, nil
+	}
+	var rf ReplayFile
+	if json.Unmarshal(b, &rf) != nil || rf.C18 == nil || rf.Violation == nil {
+		return nil, nil
+	}
+	return rf.Violation, rf.C18
+}
+
+// freshWorthwhile picks the cases that are run once more in a new process: one in 600 of all, one in 30 of those in
+// which at least two clients use the families that lean on the standard library's lazily built machinery
+// (serialisation, formatting, conversion).
+func freshWorthwhile(cs *C18Case, rs uint64) bool {
+	n := 0
+	for _, p := range cs.Programs {
+		for _, op := range p {
+			if op.Fam == "serialise" || op.Fam == "convert" || op.Name == "Format" {
+				n++
+				break
+			}
+		}
+	}
+	heavy, rest := uint64(30), uint64(600)
+	if *flagTier != "thorough" || raceEnabled {
+		heavy, rest = 120, 2400 // (a new process costs a hundred ordinary runs, several hundred under the race detector)
+	}
+	if n >= 2 {
+		return rs%heavy == 0
+	}
+	return rs%rest == 0
 }
